@@ -18,8 +18,6 @@ pub const ROOTS: &[&str] = &[
     "rnbq1k1r/pp1Pbppp/2p5/8/2B5/8/PPP1NnPP/RNBQK2R w KQ - 1 8",
     "r4rk1/1pp1qppp/p1np1n2/2b1p1B1/2B1P1b1/P1NP1N2/1PP1QPPP/R4RK1 w - - 0 10",
     // the repository's perft suite
-    "8/5bk1/8/2Pp4/8/1K6/8/8 w - d6 0 1",
-    "8/8/1k6/8/2pP4/8/5BK1/8 b - d3 0 1",
     "8/8/1k6/2b5/2pP4/8/5K2/8 b - d3 0 1",
     "8/5k2/8/2Pp4/2B5/1K6/8/8 w - d6 0 1",
     "5k2/8/8/8/8/8/8/4K2R w K - 0 1",
@@ -64,13 +62,13 @@ pub const ROOTS: &[&str] = &[
     "8/8/3k4/8/1pP1pP2/8/8/R3K2B b - f3 0 1",
     "7k/8/8/q2pP2K/8/8/8/8 w - d6 0 1",
     "7k/b7/8/8/3pP3/8/5K2/8 b - e3 0 1",
-    "4k3/8/8/8/1RpP3k/8/8/4K3 b - d3 0 1",
+    "8/8/8/8/1RpP3k/8/8/4K3 b - d3 0 1",
     // promotions (quiet and capturing, onto rook home squares)
     "4k3/PPP5/8/8/8/8/ppp5/4K3 w - - 0 1",
     "r1b1k1nr/1P4P1/8/8/8/8/1p4p1/R1B1K1NR w KQkq - 0 1",
     "8/5P1k/8/8/8/8/8/4K3 w - - 0 1",
     "n1n5/PPPk4/8/8/8/8/4Kppp/5N1N b - - 0 1",
-    "3r1k2/4P3/8/8/8/8/8/4K3 w - - 0 1",
+    "3r2k1/4P3/8/8/8/8/8/4K3 w - - 0 1",
     // pins and checks
     "4k3/4r3/8/b7/8/2N1B3/3PQ3/4K3 w - - 0 1",
     "4k3/8/8/8/8/3n4/4r3/4K3 w - - 0 1",
@@ -86,12 +84,16 @@ pub const ROOTS: &[&str] = &[
     "7k/5Q2/6K1/8/8/8/8/8 b - - 0 1",
     "R6k/8/6K1/8/8/8/8/8 b - - 0 1",
     "8/8/8/4k3/8/8/8/4K2R w - - 99 80",
-    "8/8/8/3k4/8/8/3QK3/8 w - - 0 1",
+    "8/8/8/3k4/8/8/2Q1K3/8 w - - 0 1",
     "8/8/8/4k3/8/8/4P3/4K3 w - - 0 1",
     "6k1/8/6K1/8/8/8/8/R7 w - - 0 1",
     "k7/8/1K6/8/8/8/8/2R5 w - - 96 60",
     "8/8/8/8/8/5k2/5p2/5K2 w - - 0 1",
 ];
+
+/// Suite positions that no legal game reaches (the marker could only have arisen with the
+/// side not to move in check); playable, so still useful where only C06-playability matters.
+pub const UNREACHABLE_SUITE: &[&str] = &["8/5bk1/8/2Pp4/8/1K6/8/8 w - d6 0 1", "8/8/1k6/8/2pP4/8/5BK1/8 b - d3 0 1"];
 
 #[derive(Clone, Debug, Serialize, Deserialize, PartialEq)]
 pub struct Synth {
@@ -214,6 +216,11 @@ pub fn build_synth(s: &Synth) -> Option<Pos> {
         }
         p.ep = Some(file as u8);
     }
+    p.half = 0;
+    p.full = 1;
+    if !p.plausible() {
+        return None;
+    }
     // further material
     for &(code, idx) in &s.pieces {
         let c = if code & 1 == 0 { C::White } else { C::Black };
@@ -239,16 +246,10 @@ pub fn build_synth(s: &Synth) -> Option<Pos> {
         }
         let q = free[(idx as usize * free.len()) >> 8];
         p.sq[q as usize] = Some((c, kind));
-    }
-    p.half = 0;
-    p.full = 1;
-    // one repair step instead of a rejection: if only the turn is wrong, flip it
-    if p.ep.is_none() {
-        let them = p.turn.flip();
-        let non_mover_checked = p.attacked(p.king(them)?, p.turn);
-        let mover_checked = p.attacked(p.king(p.turn)?, them);
-        if non_mover_checked && !mover_checked {
-            p.turn = them;
+        // construction instead of rejection: a piece that would make the position invalid
+        // (side not to move attacked, marker not retractable) is simply not placed
+        if !p.plausible() {
+            p.sq[q as usize] = None;
         }
     }
     Some(p)
@@ -280,8 +281,14 @@ fn slider(sel: u8, diag: bool) -> P {
     }
 }
 
-fn scatter(p: &mut Pos, a: &[u8]) {
-    // extra random material: pairs (code, square); silently skipped when the square is taken
+fn core_ok(p: &Pos, forced: Option<Mv>) -> bool {
+    p.plausible() && forced.map_or(true, |m| p.legal().contains(&m))
+}
+
+/// extra random material: pairs (code, square). A piece that lands on a taken or reserved
+/// square, or that would invalidate the motif's core (position unplayable, forced move no
+/// longer legal), is not placed -- construction with local repair instead of rejection.
+fn scatter(p: &mut Pos, a: &[u8], keep: &[u8], forced: Option<Mv>) {
     for ch in a.chunks(2) {
         if ch.len() < 2 {
             break;
@@ -289,24 +296,50 @@ fn scatter(p: &mut Pos, a: &[u8]) {
         let c = if ch[0] & 1 == 0 { C::White } else { C::Black };
         let k = [P::Pawn, P::Knight, P::Bishop, P::Rook, P::Queen, P::Pawn, P::Knight, P::Pawn][((ch[0] >> 1) % 8) as usize];
         let s = ch[1] % 64;
-        if p.count(c) < 15 {
-            let _ = put(p, s, c, k);
+        if keep.contains(&s) || p.count(c) >= 15 {
+            continue;
+        }
+        if put(p, s, c, k).is_some() && !core_ok(p, forced) {
+            p.sq[s as usize] = None;
         }
     }
 }
 
-fn finish_with_move(pre: Pos, m: Mv) -> Option<Pos> {
-    if !pre.unplayable_reasons().is_empty() {
+/// place the king of colour `c` on a generated square that is free, not next to the other
+/// king and not attacked in the position built so far
+fn safe_king(p: &mut Pos, c: C, sel: u8, keep: &[u8]) -> Option<()> {
+    let other = p.king(c.flip());
+    let cands: Vec<u8> = (0..64u8)
+        .filter(|&s| p.sq[s as usize].is_none() && !keep.contains(&s) && other.map_or(true, |o| !kings_adjacent(o, s)))
+        .filter(|&s| {
+            let mut q = p.clone();
+            q.sq[s as usize] = Some((c, P::King));
+            !q.attacked(s, c.flip())
+        })
+        .collect();
+    if cands.is_empty() {
         return None;
     }
-    if !pre.legal().contains(&m) {
+    let s = cands[(sel as usize * cands.len()) >> 8];
+    p.sq[s as usize] = Some((c, P::King));
+    Some(())
+}
+
+fn finish(mut p: Pos, a: &[u8], keep: &[u8], forced: Option<Mv>) -> Option<Pos> {
+    if !core_ok(&p, forced) {
         return None;
     }
-    Some(pre.apply(m))
+    scatter(&mut p, a, keep, forced);
+    match forced {
+        Some(m) => Some(p.apply(m)),
+        None => Some(p),
+    }
 }
 
 pub fn build_motif(kind: u8, a: &[u8]) -> Option<Pos> {
     let g = |i: usize| -> u8 { a.get(i).copied().unwrap_or(0) };
+    let rest = |i: usize| -> &[u8] { &a[i.min(a.len())..] };
+    let sgn = |x: u8| -> i8 { if x & 1 == 0 { 1 } else { -1 } };
     let mut p = Pos::empty();
     p.full = 1;
     match kind % MOTIFS {
@@ -314,96 +347,99 @@ pub fn build_motif(kind: u8, a: &[u8]) -> Option<Pos> {
         //    en-passant rank (rank 5); Black then plays the double step
         0 => {
             let kf = (g(0) % 8) as i8;
-            let rf = (g(1) % 8) as i8;
-            if (kf - rf).abs() < 3 {
-                return None;
-            }
+            // rook file at distance >= 3 on either side, by construction
+            let mut rfs: Vec<i8> = (0..8).filter(|r| (r - kf).abs() >= 3).collect();
+            rfs.sort();
+            let rf = rfs[(g(1) as usize * rfs.len()) >> 8];
             let (lo, hi) = (kf.min(rf), kf.max(rf));
-            // two adjacent files strictly between
-            let span = hi - lo - 2;
-            if span < 1 {
-                return None;
-            }
-            let f1 = lo + 1 + (g(2) as i8 % span);
+            let span = hi - lo - 2; // number of positions for the adjacent pair strictly between
+            let f1 = lo + 1 + (g(2) as i8).rem_euclid(span);
             let (wp, bp) = if g(3) & 1 == 0 { (f1, f1 + 1) } else { (f1 + 1, f1) };
             put(&mut p, mk(kf, 4)?, C::White, P::King)?;
             put(&mut p, mk(rf, 4)?, C::Black, slider(g(4), false))?;
             put(&mut p, mk(wp, 4)?, C::White, P::Pawn)?;
             put(&mut p, mk(bp, 6)?, C::Black, P::Pawn)?;
-            put(&mut p, g(5) % 64, C::Black, P::King)?;
             p.turn = C::Black;
-            scatter(&mut p, &a[6.min(a.len())..]);
-            // scattered material must not stand between on the rank
-            finish_with_move(p, Mv { from: mk(bp, 6)?, to: mk(bp, 4)?, promo: None })
+            let keep: Vec<u8> = (0..8).map(|f| mk(f, 4).unwrap()).chain([mk(bp, 5)?]).collect();
+            safe_king(&mut p, C::Black, g(5), &keep)?;
+            finish(p, rest(6), &keep, Some(Mv { from: mk(bp, 6)?, to: mk(bp, 4)?, promo: None }))
         }
         // 1: capturer pinned on the diagonal through the en-passant target square
         1 => {
-            // target t = (f,5); capturer on (f±1,4); king further down the diagonal; bishop/queen up
             let f = 1 + (g(0) % 6) as i8;
-            let side: i8 = if g(1) & 1 == 0 { 1 } else { -1 };
+            let side = sgn(g(1));
             let cap = mk(f + side, 4)?;
-            let d = 1 + (g(2) % 3) as i8;
-            let king = mk(f + side + side * d, 4 - d)?;
-            let e = 1 + (g(3) % 2) as i8;
-            let pinner = mk(f - side * e, 5 + e)?;
+            // king further down the diagonal from the capturer, pinner up beyond the target
+            let downs: Vec<u8> = (1..=4).filter_map(|d| mk(f + side + side * d, 4 - d)).collect();
+            let ups: Vec<u8> = (1..=2).filter_map(|e| mk(f - side * e, 5 + e)).collect();
+            if downs.is_empty() || ups.is_empty() {
+                return None;
+            }
+            let king = downs[(g(2) as usize * downs.len()) >> 8];
+            let pinner = ups[(g(3) as usize * ups.len()) >> 8];
             put(&mut p, king, C::White, P::King)?;
             put(&mut p, cap, C::White, P::Pawn)?;
             put(&mut p, pinner, C::Black, slider(g(4), true))?;
             put(&mut p, mk(f, 6)?, C::Black, P::Pawn)?;
-            put(&mut p, g(5) % 64, C::Black, P::King)?;
             p.turn = C::Black;
-            scatter(&mut p, &a[6.min(a.len())..]);
-            finish_with_move(p, Mv { from: mk(f, 6)?, to: mk(f, 4)?, promo: None })
+            let mut keep: Vec<u8> = downs.clone();
+            keep.extend(ups.iter());
+            keep.extend([mk(f, 5)?, mk(f, 4)?]);
+            safe_king(&mut p, C::Black, g(5), &keep)?;
+            finish(p, rest(6), &keep, Some(Mv { from: mk(f, 6)?, to: mk(f, 4)?, promo: None }))
         }
         // 2: the double-stepped pawn is the only shield of the white king on its file (king
         //    below it, rook/queen above): capturing keeps the file closed -> legal
         2 => {
             let f = (g(0) % 8) as i8;
-            let kr = (g(1) % 4) as i8; // king rank 0..3
+            let kr = (g(1) % 4) as i8;
             put(&mut p, mk(f, kr)?, C::White, P::King)?;
             put(&mut p, mk(f, 7)?, C::Black, slider(g(2), false))?;
             put(&mut p, mk(f, 6)?, C::Black, P::Pawn)?;
-            let side: i8 = if g(3) & 1 == 0 { 1 } else { -1 };
+            let side = if f == 0 { 1 } else if f == 7 { -1 } else { sgn(g(3)) };
             put(&mut p, mk(f + side, 4)?, C::White, P::Pawn)?;
-            put(&mut p, g(4) % 64, C::Black, P::King)?;
             p.turn = C::Black;
-            scatter(&mut p, &a[5.min(a.len())..]);
-            finish_with_move(p, Mv { from: mk(f, 6)?, to: mk(f, 4)?, promo: None })
+            let keep: Vec<u8> = (0..8).map(|r| mk(f, r).unwrap()).collect();
+            safe_king(&mut p, C::Black, g(4), &keep)?;
+            finish(p, rest(5), &keep, Some(Mv { from: mk(f, 6)?, to: mk(f, 4)?, promo: None }))
         }
-        // 3: the double-stepped pawn shields the king on a diagonal: removing it by en
-        //    passant opens the diagonal -> illegal unless the capturer lands on it
+        // 3: capturer pinned on its own file (king below, rook/queen above): capturing en
+        //    passant leaves the file -> illegal. (A double-stepped pawn as the sole *diagonal*
+        //    shield cannot arise by play: before the step the king would have been in check
+        //    with the opponent to move.)
         3 => {
             let f = 1 + (g(0) % 6) as i8;
-            let dir: i8 = if g(1) & 1 == 0 { 1 } else { -1 };
-            let d = 1 + (g(2) % 3) as i8;
-            let king = mk(f - dir * d, 4 - d)?;
-            let e = 1 + (g(3) % 3) as i8;
-            let pinner = mk(f + dir * e, 4 + e)?;
-            put(&mut p, king, C::White, P::King)?;
-            put(&mut p, pinner, C::Black, slider(g(4), true))?;
+            let side = sgn(g(1));
+            let cf = f + side;
+            let kr = (g(2) % 4) as i8;
+            let rr = 5 + (g(3) % 3) as i8;
+            put(&mut p, mk(cf, kr)?, C::White, P::King)?;
+            put(&mut p, mk(cf, 4)?, C::White, P::Pawn)?;
+            put(&mut p, mk(cf, rr)?, C::Black, slider(g(4), false))?;
             put(&mut p, mk(f, 6)?, C::Black, P::Pawn)?;
-            let side: i8 = if g(5) & 1 == 0 { 1 } else { -1 };
-            put(&mut p, mk(f + side, 4)?, C::White, P::Pawn)?;
-            put(&mut p, g(6) % 64, C::Black, P::King)?;
             p.turn = C::Black;
-            scatter(&mut p, &a[7.min(a.len())..]);
-            finish_with_move(p, Mv { from: mk(f, 6)?, to: mk(f, 4)?, promo: None })
+            let mut keep: Vec<u8> = (0..8).map(|r| mk(cf, r).unwrap()).collect();
+            keep.extend([mk(f, 5)?, mk(f, 4)?]);
+            safe_king(&mut p, C::Black, g(5), &keep)?;
+            finish(p, rest(6), &keep, Some(Mv { from: mk(f, 6)?, to: mk(f, 4)?, promo: None }))
         }
         // 4: check given by the double-stepped pawn itself (king on rank 4 beside it)
         4 => {
             let f = (g(0) % 8) as i8;
-            let side: i8 = if g(1) & 1 == 0 { 1 } else { -1 };
+            let side = if f == 0 { 1 } else if f == 7 { -1 } else { sgn(g(1)) };
             put(&mut p, mk(f + side, 3)?, C::White, P::King)?;
             put(&mut p, mk(f, 6)?, C::Black, P::Pawn)?;
-            let cs: i8 = if g(2) & 1 == 0 { 1 } else { -1 };
+            let cs = if f == 0 { 1 } else if f == 7 { -1 } else { sgn(g(2)) };
             put(&mut p, mk(f + cs, 4)?, C::White, P::Pawn)?;
             if g(3) & 1 == 0 {
-                let _ = put(&mut p, mk(f - cs, 4)?, C::White, P::Pawn);
+                if let Some(s2) = mk(f - cs, 4) {
+                    let _ = put(&mut p, s2, C::White, P::Pawn);
+                }
             }
-            put(&mut p, g(4) % 64, C::Black, P::King)?;
             p.turn = C::Black;
-            scatter(&mut p, &a[5.min(a.len())..]);
-            finish_with_move(p, Mv { from: mk(f, 6)?, to: mk(f, 4)?, promo: None })
+            let keep = [mk(f, 5)?, mk(f, 4)?];
+            safe_king(&mut p, C::Black, g(4), &keep)?;
+            finish(p, rest(5), &keep, Some(Mv { from: mk(f, 6)?, to: mk(f, 4)?, promo: None }))
         }
         // 5: castling with one attacker of generated type aimed at a generated back-rank square
         5 => {
@@ -411,15 +447,17 @@ pub fn build_motif(kind: u8, a: &[u8]) -> Option<Pos> {
             put(&mut p, 0, C::White, P::Rook)?;
             put(&mut p, 7, C::White, P::Rook)?;
             p.castle = [true, true, false, false];
-            put(&mut p, 56 + g(0) % 8, C::Black, P::King)?;
             let target = 1 + g(1) % 6; // b1..g1
             let kind = [P::Pawn, P::Knight, P::Bishop, P::Rook, P::Queen, P::King][(g(2) % 6) as usize];
-            // candidate attacker squares: any square from which `kind` attacks `target` on an empty board
+            // candidate attacker squares: from which `kind` attacks `target` on the board so far
             let mut cands = vec![];
             for s in 8..64u8 {
-                let mut q = Pos::empty();
+                if p.sq[s as usize].is_some() || (kind == P::Pawn && !(1..=6).contains(&rk(s))) {
+                    continue;
+                }
+                let mut q = p.clone();
                 q.sq[s as usize] = Some((C::Black, kind));
-                if q.attacked(target, C::Black) && p.sq[s as usize].is_none() {
+                if q.attackers(target, C::Black).contains(&s) && !(kind == P::King && kings_adjacent(s, 4)) {
                     cands.push(s);
                 }
             }
@@ -427,44 +465,41 @@ pub fn build_motif(kind: u8, a: &[u8]) -> Option<Pos> {
                 return None;
             }
             let s = cands[(g(3) as usize * cands.len()) >> 8];
-            if kind == P::King {
-                // replace the black king
-                for q in 0..64 {
-                    if p.sq[q] == Some((C::Black, P::King)) {
-                        p.sq[q] = None;
-                    }
-                }
-            }
             put(&mut p, s, C::Black, kind)?;
+            if kind != P::King {
+                safe_king(&mut p, C::Black, g(0), &[])?;
+            }
             // optionally occupy one path square
             if g(4) % 4 == 0 {
                 let b = [1u8, 2, 3, 5, 6][(g(5) % 5) as usize];
                 let _ = put(&mut p, b, if g(6) & 1 == 0 { C::White } else { C::Black }, P::Knight);
             }
             p.turn = C::White;
-            scatter(&mut p, &a[7.min(a.len())..]);
-            Some(p)
+            let keep: Vec<u8> = (1..7).collect();
+            finish(p, rest(7), &keep, None)
         }
         // 6: double check by a discovering move: a black piece standing between its own
         //    slider and the white king moves away giving check itself
         6 => {
             let king = g(0) % 64;
             put(&mut p, king, C::White, P::King)?;
-            let (df, dr) = refchess::KG[(g(1) % 8) as usize];
+            // directions with room for two more squares
+            let dirs: Vec<(i8, i8)> = refchess::KG.iter().copied().filter(|(df, dr)| mk(fl(king) + 2 * df, rk(king) + 2 * dr).is_some()).collect();
+            let (df, dr) = dirs[(g(1) as usize * dirs.len()) >> 8];
             let diag = df != 0 && dr != 0;
-            let d1 = 1 + (g(2) % 3) as i8;
-            let d2 = d1 + 1 + (g(3) % 3) as i8;
-            let mid = mk(fl(king) + df * d1, rk(king) + dr * d1)?;
-            let far = mk(fl(king) + df * d2, rk(king) + dr * d2)?;
+            let line: Vec<u8> = (1..8).map_while(|d| mk(fl(king) + df * d, rk(king) + dr * d)).collect();
+            let i_mid = (g(2) as usize * (line.len() - 1)) >> 8;
+            let i_far = i_mid + 1 + ((g(3) as usize * (line.len() - 1 - i_mid)) >> 8);
+            let (mid, far) = (line[i_mid], line[i_far]);
             put(&mut p, far, C::Black, slider(g(4), diag))?;
             let mover = if g(5) & 1 == 0 { P::Knight } else if diag { P::Rook } else { P::Bishop };
             put(&mut p, mid, C::Black, mover)?;
-            put(&mut p, g(6) % 64, C::Black, P::King)?;
             p.turn = C::Black;
-            scatter(&mut p, &a[8.min(a.len())..]);
-            if !p.unplayable_reasons().is_empty() {
+            safe_king(&mut p, C::Black, g(6), &line)?;
+            if !core_ok(&p, None) {
                 return None;
             }
+            scatter(&mut p, rest(8), &line, None);
             // play a move of `mid` that gives double check if there is one, else any check, else any
             let ms: Vec<Mv> = p.legal().into_iter().filter(|m| m.from == mid).collect();
             if ms.is_empty() {
@@ -481,22 +516,38 @@ pub fn build_motif(kind: u8, a: &[u8]) -> Option<Pos> {
             put(&mut p, mk(f, 6)?, C::White, P::Pawn)?;
             let kf = (f + (g(1) % 5) as i8 - 2).clamp(0, 7);
             let kr = 5 + (g(2) % 3) as i8;
-            put(&mut p, mk(kf, kr)?, C::Black, P::King)?;
-            put(&mut p, g(3) % 64, C::White, P::King)?;
-            // possible capture targets on the last rank
+            let ks = mk(kf, kr)?;
+            if ks == mk(f, 6)? {
+                return None;
+            }
+            put(&mut p, ks, C::Black, P::King)?;
+            // capture targets on the last rank
             if g(4) & 1 == 0 {
-                let _ = put(&mut p, mk(f + 1, 7).unwrap_or(63), C::Black, [P::Rook, P::Knight, P::Bishop, P::Queen][(g(5) % 4) as usize]);
+                if let Some(t) = mk(f + 1, 7) {
+                    let _ = put(&mut p, t, C::Black, [P::Rook, P::Knight, P::Bishop, P::Queen][(g(5) % 4) as usize]);
+                }
             }
             if g(4) & 2 == 0 {
-                let _ = put(&mut p, mk(f - 1, 7).unwrap_or(56), C::Black, [P::Rook, P::Knight, P::Bishop, P::Queen][(g(6) % 4) as usize]);
+                if let Some(t) = mk(f - 1, 7) {
+                    let _ = put(&mut p, t, C::Black, [P::Rook, P::Knight, P::Bishop, P::Queen][(g(6) % 4) as usize]);
+                }
             }
             // a white slider behind the pawn for discovered checks
             if g(7) & 1 == 0 {
                 let _ = put(&mut p, mk(f, (g(8) % 5) as i8)?, C::White, P::Rook);
             }
             p.turn = C::White;
-            scatter(&mut p, &a[9.min(a.len())..]);
-            Some(p)
+            safe_king(&mut p, C::White, g(3), &[])?;
+            // black's pieces may not attack the white king's... they may: White is to move
+            // but White's pieces may not attack the black king: repair by dropping the rook
+            if !core_ok(&p, None) {
+                for s in 0..64 {
+                    if p.sq[s] == Some((C::White, P::Rook)) {
+                        p.sq[s] = None;
+                    }
+                }
+            }
+            finish(p, rest(9), &[], None)
         }
         // 8: capacity: 16 mobile white pieces, two of them pawns that may also capture en
         //    passant (18 move-list entries), Black plays the double step
@@ -505,24 +556,31 @@ pub fn build_motif(kind: u8, a: &[u8]) -> Option<Pos> {
             put(&mut p, mk(f, 6)?, C::Black, P::Pawn)?;
             put(&mut p, mk(f - 1, 4)?, C::White, P::Pawn)?;
             put(&mut p, mk(f + 1, 4)?, C::White, P::Pawn)?;
-            put(&mut p, 60 - (g(1) % 2) * 4, C::Black, P::King)?;
             put(&mut p, g(2) % 16, C::White, P::King)?;
-            // 13 more mobile white pieces on generated squares of ranks 1-4
-            let mut i = 3;
+            p.turn = C::Black;
+            let keep = [mk(f, 5)?, mk(f, 4)?];
+            safe_king(&mut p, C::Black, 255 - g(1) % 64, &keep)?;
+            let forced = Some(Mv { from: mk(f, 6)?, to: mk(f, 4)?, promo: None });
+            if !core_ok(&p, forced) {
+                return None;
+            }
+            // 13 more mobile white pieces on generated squares of ranks 1-4 (kept only when the
+            // position stays valid)
             let mut placed = 0;
-            while placed < 13 && i + 1 < a.len().max(40) {
-                let s = g(i) % 32;
-                let k = [P::Queen, P::Rook, P::Bishop, P::Knight, P::Queen, P::Knight][(g(i + 1) % 6) as usize];
-                if put(&mut p, s, C::White, k).is_some() {
-                    placed += 1;
+            let mut i = 3;
+            while placed < 13 && i < 120 {
+                let s = g(i % a.len().max(1)).wrapping_add((i / a.len().max(1)) as u8 * 7) % 32;
+                let k = [P::Queen, P::Rook, P::Bishop, P::Knight, P::Queen, P::Knight][(g((i + 1) % a.len().max(1)) % 6) as usize];
+                if !keep.contains(&s) && put(&mut p, s, C::White, k).is_some() {
+                    if core_ok(&p, forced) {
+                        placed += 1;
+                    } else {
+                        p.sq[s as usize] = None;
+                    }
                 }
                 i += 2;
-                if i > 80 {
-                    break;
-                }
             }
-            p.turn = C::Black;
-            finish_with_move(p, Mv { from: mk(f, 6)?, to: mk(f, 4)?, promo: None })
+            Some(p.apply(forced.unwrap()))
         }
         // 9: mate / stalemate nets: lone king on the edge against king + heavy pieces
         9 => {
@@ -534,47 +592,50 @@ pub fn build_motif(kind: u8, a: &[u8]) -> Option<Pos> {
                 _ => 8 * (1 + edge - 22) + 7,
             };
             put(&mut p, ks, C::Black, P::King)?;
-            put(&mut p, g(1) % 64, C::White, P::King)?;
+            p.turn = if g(9) & 1 == 0 { C::White } else { C::Black };
+            safe_king(&mut p, C::White, g(1), &[])?;
             let n = 1 + g(2) % 3;
             for i in 0..n as usize {
                 let k = [P::Queen, P::Rook, P::Rook, P::Bishop, P::Knight, P::Queen][(g(3 + 2 * i) % 6) as usize];
-                let _ = put(&mut p, g(4 + 2 * i) % 64, C::White, k);
+                let s = g(4 + 2 * i) % 64;
+                if put(&mut p, s, C::White, k).is_some() && !core_ok(&p, None) {
+                    p.sq[s as usize] = None;
+                }
             }
-            p.turn = if g(9) & 1 == 0 { C::White } else { C::Black };
             if g(10) % 3 == 0 {
                 p.half = 96 + (g(11) % 6) as u32;
             }
-            scatter(&mut p, &a[12.min(a.len())..]);
-            Some(p)
+            finish(p, rest(12), &[], None)
         }
-        // 10: castling-rook and en-passant discovered checks: black king on the f-/d-file or
-        //     behind the two pawns
+        // 10: castling-rook discovered checks: black king on the f-/d-file
         10 => {
             put(&mut p, 4, C::White, P::King)?;
             put(&mut p, 7, C::White, P::Rook)?;
             put(&mut p, 0, C::White, P::Rook)?;
             p.castle = [true, true, false, false];
             let kf = if g(0) & 1 == 0 { 5 } else { 3 };
-            put(&mut p, mk(kf, 3 + (g(1) % 5) as i8)?, C::Black, P::King)?;
+            put(&mut p, mk(kf, 2 + (g(1) % 6) as i8)?, C::Black, P::King)?;
             p.turn = C::White;
-            scatter(&mut p, &a[2.min(a.len())..]);
-            Some(p)
+            let keep: Vec<u8> = (1..7).chain((1..8).map(|r| mk(kf, r).unwrap())).collect();
+            finish(p, rest(2), &keep, None)
         }
-        // 11: en-passant capture that discovers check on the *enemy* king (both pawns leave a line)
+        // 11: en-passant capture that discovers check on the *enemy* king (both pawns leave a rank)
         _ => {
             let f = 1 + (g(0) % 6) as i8;
-            let side: i8 = if g(1) & 1 == 0 { 1 } else { -1 };
-            // black king on rank 5 (index 4) on one side, white rook/queen on the other side
+            let side = sgn(g(1));
             let kf = if side > 0 { 0.max(f - 1 - (g(2) % 2) as i8) } else { 7.min(f + 1 + (g(2) % 2) as i8) };
             let rf = if side > 0 { 7 } else { 0 };
+            if mk(kf, 4) == mk(f, 4) || mk(rf, 4) == mk(f + side, 4) {
+                return None;
+            }
             put(&mut p, mk(kf, 4)?, C::Black, P::King)?;
             put(&mut p, mk(rf, 4)?, C::White, slider(g(3), false))?;
             put(&mut p, mk(f + side, 4)?, C::White, P::Pawn)?;
             put(&mut p, mk(f, 6)?, C::Black, P::Pawn)?;
-            put(&mut p, g(4) % 64, C::White, P::King)?;
             p.turn = C::Black;
-            scatter(&mut p, &a[5.min(a.len())..]);
-            finish_with_move(p, Mv { from: mk(f, 6)?, to: mk(f, 4)?, promo: None })
+            let keep: Vec<u8> = (0..8).map(|x| mk(x, 4).unwrap()).chain([mk(f, 5)?]).collect();
+            safe_king(&mut p, C::White, g(4), &keep)?;
+            finish(p, rest(5), &keep, Some(Mv { from: mk(f, 6)?, to: mk(f, 4)?, promo: None }))
         }
     }
 }
